@@ -75,10 +75,28 @@ def isolation_work(item):
     """Several live trees, as the prune-regraft sampler holds them: one extracted subtree object grafted onto two copies of
     the remaining tree; then every in-place edit inside the grafted region of the first copy.  The second copy, the subtree
     object and the pruned tree must not change, and the second copy must still equal its fresh build."""
-    n, si, seed = item
+    n, si, seed = item[:3]
+    mode = item[3] if len(item) > 3 else "fresh"  # "model": judge the other live trees by the closed-form density and tree identity (C03)
     from phyclone.tree import Tree
 
     data = oracle.make_data(n, dims=1, grid=3, kind="generic", seed=seed, outlier_prob=0.2)
+
+    def judge(t):
+        if mode == "fresh":
+            return editbfs.fresh_equal_problems(t, data, td, 1e-9)
+        a = oracle.abstract(t)
+        if not a[0] and not a[1]:
+            return []
+        out = []
+        for form, fn in (("marginal", td.log_p), ("one", td.log_p_one)):
+            want = oracle.ref_log_joint(a, data, 1.3, form, data_term=oracle.exact_root_vector)
+            got = float(fn(t))
+            if not abs(got - want) <= 1e-8 * (1 + abs(want)):
+                out.append("%s = %.12g, the model gives %.12g for the tree it holds" % ("log_p" if form == "marginal" else "log_p_one", got, want))
+        f = oracle.build(a, data)
+        if not (f == t and t == f and hash(f) == hash(t)):
+            out.append("it no longer compares / hashes equal to a fresh build with the same clades and outliers")
+        return out
     s = oracle.all_states(n - 1, outliers=True)[si]
     spare = data[n - 1]
     td = _td()
@@ -105,7 +123,7 @@ def isolation_work(item):
             if wf:
                 problem("%s malformed after an in-place edit of another tree: %s" % (nm, wf[0]), ctx)
                 continue
-            fp = editbfs.fresh_equal_problems(t, data, td, 1e-9)
+            fp = judge(t)
             if fp:
                 problem("%s after an in-place edit of another tree: %s" % (nm, fp[0]), ctx)
 
@@ -165,7 +183,7 @@ def isolation_work(item):
                         A.relabel_nodes()
                         res["n"] += 1
                         watch(live_names, live, before, dict(ctx, edit="relabel the first copy"))
-                        fp = editbfs.fresh_equal_problems(A, data, td, 1e-9)
+                        fp = judge(A)
                         if fp:
                             problem("the edited copy itself: %s" % fp[0], ctx)
                         if len(res["problems"]) >= 3:
